@@ -25,7 +25,7 @@ CLAIMS = {
         "the partition owner stopped at fail points inside a Put (after its own write / after a backup write) and a Delete. Half of the scenarios dump every copy after every "
         "operation: Coq checks that Model/Balance.v's step explains each healthy transition, that each healthy state satisfies the invariant of the theorems, and that every "
         "state after a member loss satisfies the member-loss invariant of Model/BalanceCrash.v (C03_crash_at_any_step: no copy newer than the last acknowledged entry, the "
-        "backup owners or the holders still have it, reads resolve to it).",
+        "backup owners or the holders still have it, reads resolve to it). The balancer's decisions (Model/Balancer.v = primaryCopies/backupCopies): a rightful holder never gives data away (C02_owner_keeps_primary, C02_current_backup_keeps); exact differential of the real functions over recording fragments on every run.",
    note=TB + "D40 (both copies of a partition on one member during a hand-over) is an open known finding that also bounds C02 while members are joining; memberlist's failure detector and the coordinator's recomputation are the environment (that the new routing still reaches a surviving holder is C13's territory and is "
         "validated by execution here); an operation in flight during the failure may or may not take effect.",
    ref="DESIGN.md 9 C02"),
@@ -38,7 +38,7 @@ CLAIMS = {
         "hand-over (Model/BalanceCrash.v: interrupted moves, loss of any holder or of the backup owner at any step): as long as the backup owner or every holder survives a read "
         "returns the last acknowledged entry (C03_crash_at_any_step), the bound is tight (C03_two_losses_refuted). Executed with fail points in fragment.Move / mergeFragments "
         "(sender lost before the send and between merge and Drop, receiver lost before, during and after the import). Every operation of half of the scenarios is followed by a "
-        "white-box dump and compared inside Coq with the model's step function and invariants (~2500 transitions, ~6000 states per quick run).",
+        "white-box dump and compared inside Coq with the model's step function and invariants (~2500 transitions, ~6000 states per quick run). Payload of a move in flight (Model/BalanceFlight.v): Puts acknowledged between export and import are protected by the merge, a Delete of a key in flight is not (C03_inflight_safe; D43 = C03_delete_in_flight_refuted). The balancer's decisions (Model/Balancer.v): soundness and completeness of the planned moves, exact differential of primaryCopies/backupCopies (1500 cases per quick run).",
    note=TB + "D40 (primary and only backup copy of a partition on one member during a hand-over, so that the loss of that member loses acknowledged writes) is an open known "
         "finding, reproduced on every run by the directed harness op colocate; fail points are compiled in with the build tag verif (one guarded commit in /repo); a stopped member "
         "is emulated in-process (gossip stopped without leave, listener and connections closed); memberlist and the balancer's timing are driven explicitly by the harness.",
@@ -60,11 +60,11 @@ CLAIMS = {
    text="Theorems (Model/LRU.v, victim = oracle constrained to be a key of the fragment): after ANY sequence of Puts a fragment holds at most max(1, MaxKeys/owned) keys and, with "
         "equally sized entries, at most MaxInuse/owned + one entry of bytes; Puts never fail, the key just written is present; n partitions within their share hold at most "
         "max(n, MaxKeys) keys; a background pass never removes a key accessed within the idle window and removes a sampled key idle past it. Executed: grid MaxKeys x LRUSamples x "
-        "key streams and MaxInuse on 1- and 3-member clusters with per-partition Stats and key sets after EVERY Put (victims reconstructed and replayed by the model), idle scenario.",
+        "key streams and MaxInuse on 1- and 3-member clusters with per-partition Stats and key sets after EVERY Put (victims reconstructed and replayed by the model), idle scenario. Idle eviction also over fragments of several tables (keys in read-only tables kept alive by reads only).",
    note=TB + "'eventually disappears' is the sampler's fairness (oracle); ownership is stable during a scenario.",
    ref="DESIGN.md 9 C10"),
  "C04": dict(
-   text='Theorems over Model/DMap.v (owner-side semantics of every mutating operation with synchronous replication): for EVERY operation sequence, routing, replica count and clock readings, after each operation every backup copy equals the primary copy in value, expiry and timestamp, is absent exactly when the primary copy is absent, and no other member holds a copy (C04_mirror); hence single-copy reads agree. The model is executed against real clusters (N,R) in {(3,2),(3,3),(2,2)} on random sequences through 7 client paths with a white-box dump of all copies after every operation, on every run.',
+   text='Theorems over Model/DMap.v (owner-side semantics of every mutating operation with synchronous replication): for EVERY operation sequence, routing, replica count and clock readings, after each operation every backup copy equals the primary copy in value, expiry and timestamp, is absent exactly when the primary copy is absent, and no other member holds a copy (C04_mirror); hence single-copy reads agree. The model is executed against real clusters (N,R) in {(3,2),(3,3),(2,2)} on random sequences through 7 client paths with a white-box dump of all copies after every operation, on every run. Also: 2-4 clients overlapping on 1-2 keys (incl. a Lock that waits while the holder renews and drops its lease), copies compared at quiescence.',
    note=TB + "stable healthy cluster (all backups reachable; quorum decisions are C05's); write timestamps of acknowledged sequential operations increase; timing-ambiguous cases are discarded and counted.",
    ref='DESIGN.md 9 C04'),
  "C05": dict(
@@ -99,7 +99,7 @@ CLAIMS = {
  "C18": dict(
    text="Theorems over a heap model (blocks and Go slice descriptors): for all runs mixing store operations and client writes, blocks reachable from returned "
         "handles and slab blocks are disjoint; a returned value never changes and writing into it never changes the store or other handles; Put arguments may be "
-        "reused. Executed on the real engine and clusters (embedded owner/non-owner, cluster client, GetPut, iterator, compaction, table recycling, migration).",
+        "reused. Executed on the real engine and clusters (embedded owner/non-owner, cluster client, GetPut, iterator, compaction, table recycling, migration). Clusters with asynchronous replication and reads of the backup copy itself are included.",
    note=TB + "Go's memory model (copy semantics of make/copy) is assumed; FutureGet.Result() called twice is not exercised.",
    ref="DESIGN.md 9 C18, docs/DESIGN-C17-C18.md"),
  "C09": dict(
@@ -165,7 +165,7 @@ CLAIMS = {
         "with inuse = bytes of live records (superseded bytes are garbage on both write paths); Put allocates at most one table; compaction makes "
         "progress (a measure strictly decreases), terminates within 2*live+tables+3 calls and on completion no sealed table is above the threshold. "
         "Churn workloads on the real kvstore (Put and PutRaw paths, compaction once per 2T bytes) are compared with the model and with the closed-form "
-        "bound on allocated memory on every run.",
+        "bound on allocated memory on every run. After the repair of D44 a table qualifies also when it holds garbage and no live byte: once compaction reports done every other table that holds garbage holds live bytes (C20_no_dead_table_after_compaction); the compaction worker's loop on a fragment ends whenever the fragment is closed (C20_worker_terminates; D45 = C20_worker_spun_on_closed_fragment_refuted). Also executed: churn with entries of two sizes (tables sealed far from full), and on 2-member clusters with 2 copies the member's real triggerCompaction after every two tables written (primary and backup copies against the bound) and racing DM.DESTROY.",
    note=TB + "the closed-form bound on allocated memory is evaluated on the implementation (predicate), not yet proved; the bound length(tables)+1 on "
         "compaction calls is refuted by a witness (C20_compaction_terminates_refuted) and replaced by the weaker proved bound; cluster-level (backup) churn "
         "is covered through PutRaw at store level.",
